@@ -364,11 +364,46 @@ def run_optgp(acc, rng, model, ident0):
         try:
             with warnings.catch_warnings():
                 warnings.simplefilter("ignore")
-                a = OptGPSampler(model, processes=p, thinning=3, seed=11).sample(8)
-                b = OptGPSampler(model, processes=p, thinning=3, seed=11).sample(8)
-        except ValueError:
-            acc.count("optgp_refused_model")
-            return
+                try:
+                    sa = OptGPSampler(model, processes=p, thinning=3, seed=11)
+                    sb = OptGPSampler(model, processes=p, thinning=3, seed=11)
+                except ValueError:
+                    # only the constructor's refusal of a degenerate space is a documented outcome
+                    acc.count("optgp_refused_model")
+                    return
+                a = sa.sample(8)
+                b = sb.sample(8)
+                # the same sampler asked again, with a count that is no multiple of the process count, and in batches:
+                # its bookkeeping (samples drawn so far, running centre) must follow what was actually drawn
+                gave_up = 0
+                for seed2 in (11, 12, 13):
+                    s_re = sa if seed2 == 11 else OptGPSampler(model, processes=p, thinning=3, seed=seed2)
+                    try:
+                        if seed2 != 11:
+                            s_re.sample(8)
+                        s_re.sample(5)
+                        list(s_re.batch(3, 2))
+                        acc.count("optgp_repeated_draws")
+                        break
+                    except RuntimeError as e:
+                        if "Cannot escape sampling region" not in str(e):
+                            raise
+                        gave_up += 1
+                if gave_up == 3:
+                    # the sampler's documented give-up, three seeds in a row, on repeated draws only: does a sampler
+                    # that is asked for everything at once give up as well?
+                    fresh_ok = 0
+                    for seed2 in (11, 12, 13):
+                        try:
+                            OptGPSampler(model, processes=p, thinning=3, seed=seed2).sample(8 + 5 + 6)
+                            fresh_ok += 1
+                        except RuntimeError:
+                            pass
+                    if fresh_ok == 3:
+                        acc.ev()
+                        acc.violation("C14/optgp/repeated-draws-give-up-where-one-draw-does-not", f"OptGP with {p} processes: sample(8); sample(5); batch(3, 2) ends in 'Cannot escape sampling region' for seeds 11, 12 and 13, while fresh samplers asked for 19 samples at once succeed for all three", ident)
+                        return
+                    acc.count("optgp_gave_up_cannot_escape_region")
         except Exception as e:
             acc.ev()
             acc.violation(f"C14/optgp/raised/{type(e).__name__}", f"OptGP with {p} processes raised {type(e).__name__}: {str(e)[:150]}", ident)
